@@ -97,8 +97,9 @@ def exec_histories(binary, histories, wd, tag="t", shards=None, test="TestDrive"
 
 
 # ---------------------------------------------------------------------------- TLC
-def tlc(wd, module, cfg_text, args, env=None, heap="4g", timeout=3600, cfg_name=None):
-    """Run TLC in scratch directory wd (spec files are copied there). Returns stdout text."""
+def tlc(wd, module, cfg_text, args, env=None, heap="4g", timeout=3600, cfg_name=None, out_file=None):
+    """Run TLC in scratch directory wd (spec files are copied there). Returns (exit code, output text); with out_file the
+    output goes to that file (generation runs print gigabytes) and only its tail is returned."""
     for f in os.listdir(SPEC):
         if f.endswith(".tla"):
             shutil.copy(os.path.join(SPEC, f), wd)
@@ -112,11 +113,22 @@ def tlc(wd, module, cfg_text, args, env=None, heap="4g", timeout=3600, cfg_name=
     if env:
         e.update(env)
     try:
-        p = subprocess.run(cmd, cwd=wd, env=e, capture_output=True, text=True, timeout=timeout)
+        if out_file:
+            with open(out_file, "w") as fo:
+                p = subprocess.run(cmd, cwd=wd, env=e, stdout=fo, stderr=subprocess.STDOUT, text=True, timeout=timeout)
+        else:
+            p = subprocess.run(cmd, cwd=wd, env=e, capture_output=True, text=True, timeout=timeout)
     except subprocess.TimeoutExpired:
         shutil.rmtree(meta, ignore_errors=True)
         raise Indeterminate(f"TLC timed out after {timeout}s: {' '.join(cmd)}")
     shutil.rmtree(meta, ignore_errors=True)
+    if out_file:
+        with open(out_file, "rb") as fi:
+            fi.seek(0, 2)
+            n = fi.tell()
+            fi.seek(max(0, n - 200000))
+            tail = fi.read().decode("utf-8", "replace")
+        return p.returncode, tail
     return p.returncode, p.stdout + p.stderr
 
 
@@ -191,8 +203,9 @@ HIST_RE = re.compile(r'^<<"HIST", (".*")>>$')
 
 
 def parse_hist(out):
+    """out: the output text, or an iterable of lines (a file object)"""
     hs, seen = [], set()
-    for line in out.splitlines():
+    for line in (out.splitlines() if isinstance(out, str) else out):
         m = HIST_RE.match(line.strip())
         if not m:
             continue
@@ -229,8 +242,11 @@ def gen_exhaustive(family, cfgs, bounds, wd, timeout=1800, tail_k=None, seed=1):
     same states) unless they have such a tail; the tail (all of it, or a seeded sample of tail_k
     operations) is appended to the witness."""
     cfg = mc_cfg(family, cfgs, bounds, ["EmitHist"], emit=True, view="ViewGen", emit_all=True)
-    rc, out = tlc(wd, "MCGrants", cfg, ["-workers", str(NCPU)], heap="12g", timeout=timeout, cfg_name=f"genx_{family}.cfg")
-    hs = parse_hist(out)
+    of = os.path.join(wd, f"genx_{family}.out")
+    rc, out = tlc(wd, "MCGrants", cfg, ["-workers", str(NCPU)], heap="12g", timeout=timeout, cfg_name=f"genx_{family}.cfg", out_file=of)
+    with open(of) as fh:
+        hs = parse_hist(fh)
+    os.remove(of)
     if not hs:
         raise Indeterminate("TLC state-cover generation produced no behaviours:\n" + out[-3000:])
     keyed = {}
